@@ -22,7 +22,14 @@ def run_mutants(mutants, detect):
     """mutants: list of (label, contextmanager factory); detect() -> list of violation keys (empty = nothing found)."""
     t0 = time.time()
     base = detect()
-    print("baseline (unmutated): %s" % ("clean" if not base else "findings %s" % base))
+    try:
+        from harness import findings
+
+        known = {e["key"] for e in findings.load() if e.get("status") == "known"}
+    except Exception:
+        known = set()
+    unlisted = [k for k in base if k not in known]
+    print("baseline (unmutated): %s" % ("clean" if not base else "findings %s (%d listed as known)" % (base, len(base) - len(unlisted))))
     missed = 0
     for label, cm in mutants:
         try:
@@ -36,4 +43,4 @@ def run_mutants(mutants, detect):
             missed += 1
             print("MISSED  %-60s" % label)
     print("selftest: %d mutants, %d missed, %.1fs" % (len(mutants), missed, time.time() - t0))
-    return 0 if not missed and not base else 1
+    return 0 if not missed and not unlisted else 1
